@@ -97,7 +97,7 @@ def stored_of(interp, p):
     g = p._pv_ghost
     if 'stored' not in g:
         g['stored'] = to_z3(interp.reg.opaque_getattr(interp, p, 'stored'))     # initial contents: attribute of the model
-    return g['stored']
+    return _t(g['stored'])
 
 
 def set_stored(interp, p, t):
@@ -219,7 +219,7 @@ def written_of(interp, out):
         return stored_of(interp, g['path'])
     if 'written' not in g:
         g['written'] = to_z3(interp.reg.opaque_getattr(interp, out, 'written0'))
-    return g['written']
+    return _t(g['written'])
 
 
 def _as_text(interp, v):
@@ -336,7 +336,7 @@ def _sio_value(interp, self):
     g = self._pv_ghost
     if 'value' not in g:
         g['value'] = to_z3(interp.reg.opaque_getattr(interp, self, 'value0'))
-    return g['value']
+    return _t(g['value'])
 
 
 def _sio_write(interp, self, args, kwargs):
